@@ -79,7 +79,9 @@ class BaseModelPlus(ParserMixin, BaseModel, metaclass=DynEncoderModelMetaclass):
 
     @classmethod
     def parse_file(cls, path: Union[str, Path]):
-        return parse_yaml_file_as(cls, path)
+        # like parse_raw: JSON first (the YAML reader does not join the surrogate
+        # pair escapes that json() writes for characters beyond the BMP)
+        return cls.parse_raw(Path(path).read_bytes())
 
     @classmethod
     def parse_raw(cls, dat: Union[str, bytes], **kwargs):
